@@ -308,7 +308,7 @@ func ext۰reflect۰Value۰MapKeys(fr *frame, args []value) value {
 	tKey := rV2T(args[0]).t.Underlying().(*types.Map).Key()
 	var keys []value
 	if m, _ := rV2V(args[0]).(*smap); m != nil {
-		for _, k := range m.keys {
+		for _, k := range m.liveKeys() {
 			keys = append(keys, makeReflectValue(tKey, k))
 		}
 	}
